@@ -3,13 +3,43 @@
    to the library's compiled layout in C03.  Proved here: the two facts about the decoder that make it a function of the
    image alone - it never looks at a block it was not led to by a pointer chain starting at the root, boot block or
    bitmap list is a property of its definition; what is stated and proved is determinism on agreeing images.
-   Agreement of ADFlib's read path with the decoder on well-formed images is decided per explored image (checks/c06.py). *)
+   Agreement of ADFlib's read path with the decoder on well-formed images is decided per explored image (checks/c06.py).
+   Proved on the file handle model (Model/FileIO.v = adf_file.c statement by statement): a file lying on ANY volume - header, data blocks L
+   and extension blocks E placed anywhere, in any order, fragmented or not (`on_disk`) - opens into a coherent handle, and a read of n
+   bytes at offset p through it returns exactly the slice of the content the tables lead to, for every p and n.  checks/c06.py runs the
+   model, loaded with the blocks of files of images written by the independent writer, beside the library on the same open/seek/read calls. *)
 From Coq Require Import ZArith List Bool.
 From ADF Require Import CPrelude Spec.Names Spec.Decode.
+From ADF Require Model.FileIO Proofs.FileIOL Proofs.FileIOP.
 Local Open Scope Z_scope.
 
 (* names: an entry is accepted only in the chain of its own name's hash, which is the library's hash (C15) *)
 Theorem C06_hash_range : forall intl s, 0 <= hash_name intl s < 72.
 Proof. intros. unfold hash_name, hash_folded. apply Z.mod_pos_bound. reflexivity. Qed.
 
+Module H.
+Import ListNotations ADF.Model.FileIO ADF.Proofs.FileIOL ADF.Proofs.FileIOP.
+
+Theorem C06_open_any_placement : forall bs ofs key, 0 < bs -> forall d L E ct r w, on_disk bs ofs key d L E ct ->
+  exists s', fio_open bs ofs nobad d key r w = (true, s') /\ Inv bs ofs key s' L E /\ Repr bs s' L ct /\ pos s' = 0 /\ dk s' = d /\ mr s' = r /\ mw s' = w.
+Proof. exact open_image_ok. Qed.
+
+Theorem C06_read_is_slice_of_content : forall bs ofs key, 0 < bs -> forall d L E ct w p n, on_disk bs ofs key d L E ct -> 0 <= p -> 0 <= n ->
+  exists s1 s2 s3 rd, fio_open bs ofs nobad d key true w = (true, s1) /\ fio_seek bs ofs nobad s1 p = (true, s2) /\ fio_read bs ofs nobad s2 n = (s3, rd)
+    /\ rd = sub ct (Z.min p (len ct)) (Z.max 0 (Z.min n (len ct - Z.min p (len ct)))) /\ pos s3 = Z.min p (len ct) + len rd.
+Proof. exact read_image_slice. Qed.
+
+(* not vacuous: a 3-byte-block "volume" with a 7-byte file whose blocks lie in reverse order; read 4 bytes at offset 2 *)
+Example C06_slice_example :
+  let h := {| h_key := 50; h_size := 7; h_first := 40; h_high := 3; h_tab := [40; 30; 20] ++ zerosZ 69; h_ext := 0 |} in
+  let blk (l : list Z) := BData {| d_bytes := l; d_next := 0; d_size := 0; d_seq := 0; d_key := 0 |} in
+  let d : disk := fun k => if k =? 50 then BHdr h else if k =? 40 then blk [1; 2; 3] else if k =? 30 then blk [4; 5; 6] else if k =? 20 then blk [7; 0; 0] else BOther in
+  let '(_, s1) := fio_open 3 false nobad d 50 true false in
+  let '(_, s2) := fio_seek 3 false nobad s1 2 in
+  snd (fio_read 3 false nobad s2 4) = [3; 4; 5; 6].
+Proof. vm_compute. reflexivity. Qed.
+End H.
+
 Print Assumptions C06_hash_range.
+Print Assumptions H.C06_open_any_placement.
+Print Assumptions H.C06_read_is_slice_of_content.
